@@ -42,6 +42,29 @@ def gen_history(rng, tier):
         if len(s["data"]) > 12:
             s["data"] = s["data"][:12]
         specs.append(s)
+    if rng.random() < 0.35:
+        # the way every script in examples/ works: ONE options dict for two timelines (the same object, or a shallow copy of it with a few
+        # keys changed, made after the first construction).  The second timeline has its own data; its options say what the first one's say.
+        a, b = rng.sample(range(k), 2)
+        base = specs[a]
+        while True:
+            s = TG.gen_spec(rng, "quick")
+            if s["kind"] == base["kind"]:
+                break
+        o = json.loads(json.dumps(base["options"]))
+        how = rng.choice(["same", "copy", "copy"]) if base["kind"] != "number" else "copy"     # number axes: a scale object is passed; a shared one would be the caller's sharing
+        over = []
+        if how == "copy":
+            for key in rng.sample(["direction", "initialWidth", "initialHeight", "layerGap"], rng.randint(0, 2)):
+                over.append(key)
+                if key in s["options"]:
+                    o[key] = s["options"][key]
+                else:
+                    o.pop(key, None)
+        base["opt_mode"] = "given"
+        specs[b] = {"kind": base["kind"], "data": s["data"][:12], "options": o, "opt_mode": "given"}
+        for i in (a, b):
+            specs[i]["share"] = {"group": 0, "how": how, "over": over}
     backends = [rng.choice(["svg", "tikz"]) for _ in specs]
     ops = []
     constructed = []
@@ -59,6 +82,33 @@ def gen_history(rng, tier):
     return specs, backends, ops
 
 
+def construct_in_history(specs, bks, i, shared):
+    """construct timeline i; timelines of one `share` group receive the options OBJECT the group's first construction was given (or a
+    shallow copy of it with the keys in `over` set to this timeline's own values)"""
+    from labella.timeline import TimelineSVG, TimelineTex
+    from labella.scale import LinearScale
+    sh = specs[i].get("share")
+    if not sh:
+        return TG.construct(specs[i], bks[i])
+    cls = TimelineSVG if bks[i] == "svg" else TimelineTex
+    data, own = TG.build_args(specs[i])
+    if sh["group"] not in shared:
+        shared[sh["group"]] = own
+        return cls(data, options=own)
+    first = shared[sh["group"]]
+    if sh["how"] == "same":
+        return cls(data, options=first)
+    o = dict(first)
+    for key in sh["over"]:
+        if key in own:
+            o[key] = own[key]
+        else:
+            o.pop(key, None)
+    if specs[i]["kind"] == "number":
+        o["scale"] = LinearScale()
+    return cls(data, options=o)
+
+
 def body_c10(tier, seed, rep, only_prop=False, scale=1):
     import ref_export as RE
     rng = rng_for(seed, "c10")
@@ -70,7 +120,7 @@ def body_c10(tier, seed, rep, only_prop=False, scale=1):
         list(ex.map(lambda j: reference(*json.loads(j), cache), jobs))
     lines, metas = [], []
     for specs, bks, ops in hist:
-        tls = {}
+        tls, shared = {}, {}
         enc, obs = [], []
         exported_before = {}
         others_seen = False
@@ -83,7 +133,9 @@ def body_c10(tier, seed, rep, only_prop=False, scale=1):
                 break
             try:
                 if op == "c":
-                    tls[i] = TG.construct(specs[i], bks[i])
+                    tls[i] = construct_in_history(specs, bks, i, shared)
+                    if specs[i].get("share"):
+                        rep.count("shared-options-" + specs[i]["share"]["how"])
                     enc.append("c:%d:%s:%s:%s" % (i, ref["domain"][0].replace("-", "m").replace(".", "p").replace("+", "") if False else ref["domain"][0], ref["domain"][1], ref["direction"]))
                 else:
                     doc = TG.export(tls[i])
@@ -187,10 +239,10 @@ def run(pid, tier, seed, replay=None):
             cache = {}
             specs, bks, ops = m["specs"], m["backends"], [tuple(o) for o in m["ops"]]
             import ref_export as RE
-            tls, bad = {}, False
+            tls, shared, bad = {}, {}, False
             for op, i in ops:
                 if op == "c":
-                    tls[i] = TG.construct(specs[i], bks[i])
+                    tls[i] = construct_in_history(specs, bks, i, shared)
                 else:
                     o = RE.observe(tls[i], TG.export(tls[i]))
                     if o["doc"] != reference(specs[i], bks[i], cache).get("doc"):
